@@ -63,6 +63,14 @@ The harness reads compiled filter nodes only through tolerant accessors (_node_l
 generated filter text.  Literals now include False, a UUID-valued string and a quoted string with escapes; the grammar has no
 negative numbers.  The false-everywhere leaf of (a) is ``Foo.Bar.N != None`` (None literal under !, &&, ||).
 
+Export/thaw exactness (added for a defect the loose comparison hid): the header attributes of a thawed / re-imported message are
+compared type-exactly (_typed: acks tuple, extra bytes-like, flags int, packet_id incl. None, direction, dropped/synthetic bool, meta
+dict incl. tuple-valued entries), against an expectation written from the generator's plain data; row 0 of every template is also run
+with packet_id None (synthetic message logged before it got an id).  Differential oracle (part e): every leaf filter of the (b)
+selector table with bare / == / != x all literals gives the same verdict on an entry before and after export+import, after freeze
+(thaw), and after freeze+export+import -- clauses export-changes-verdict / thaw-changes-verdict, site = stage:kind:Meta.<key> or
+field:<type of the selected field>; no hand-written expectation.
+
 Deviations from DESIGN: 8 leaves instead of 6 in (a) (two type-inapplicable leaves: one raises in both modes, one only without
 short-circuit); chains with negated terms are enumerated over the first 4 leaves only (size).  Acks/extra are compared as
 sequences (a wire-decoded message's ``extra`` is a bytearray and comes back from import as a list of ints; the datagram is equal).
